@@ -19,7 +19,7 @@ def TornNew (t : Int) (d c : Bytes) (r : Int × Bytes) : Prop :=
 /-- the crash state `c` still carries the header `h` of the earlier file, the `h.size` bytes
 behind it pass the check against `h.crc`, but the earlier file would not have loaded as `r` -/
 def TornOld (now : Int) (old c : Bytes) (r : Int × Bytes) : Prop :=
-  ∃ h, parseHeader old = some h ∧ parseHeader c = some h ∧ r.1 = h.timeout ∧
+  ∃ h, parseHeader old = some h ∧ parseHeader c = some h ∧ r.1 = h.timeout ∧ Gen.expired h.timeout now = false ∧
     r.2 = dataArea c h.size ∧ r.2.length = h.size ∧ crc32 r.2 = h.crc ∧ readFromFile now old ≠ some r
 
 /-- no crash state of this save over `old` is a torn value that passes the CRC test -/
@@ -29,6 +29,28 @@ def CollisionFree (S : Nat) (now : Int) (old : Bytes) (t : Int) (d : Bytes) : Pr
 /-- the earlier file state is one a directory can hold after `open(O_CREAT)`/saves/crashes:
 empty (just created) or at least a whole header -/
 def WellFormedOld (old : Bytes) : Prop := old = [] ∨ 16 ≤ old.length
+
+/-- the values handed to a (complete or crashed) save of `sid` along a history -/
+def savedValues (sid : Bytes) : List Op → List (Int × Bytes)
+  | [] => []
+  | .save s t d :: r => if s = sid then (t, d) :: savedValues sid r else savedValues sid r
+  | .crashSave _ s t d _ _ _ :: r => if s = sid then (t, d) :: savedValues sid r else savedValues sid r
+  | _ :: r => savedValues sid r
+
+/-- side conditions of one step: clocks are positive, deadlines fit `time_t`, payloads fit `int`,
+sectors hold the header, the header write is atomic, and — the idealising hypothesis — the crashed
+save is `CollisionFree` over the file it hits -/
+def OpOk (w : World) : Op → Prop
+  | .setClock n => 0 < n
+  | .save _ t d => InI64 t ∧ d.length < 2^31
+  | .crashSave S sid t d k j _ =>
+      16 ≤ S ∧ InI64 t ∧ d.length < 2^31 ∧ (k = 0 → j = 0) ∧
+      ∀ now, CollisionFree S now ((w.dir sid).getD []) t d
+  | _ => True
+
+def Admissible (w : World) : List Op → Prop
+  | [] => True
+  | op :: r => OpOk w op ∧ Admissible (step w op) r
 
 /-- Judge (executable): what a load after a crashed save may return, given what a load of
 the earlier state returned at the same clock. -/
